@@ -1,7 +1,7 @@
 (* C17 — Expiry removes only event keys, wholly, and only after the TTL.
    Property theorems only: each is closed by `exact <lemma>` and followed by Print Assumptions. *)
 From KB Require Import Base.Cases Model.Coder Model.CompactSys Model.C07Cases Model.C17Cases
-  Proofs.Coder Proofs.CompactSafe Proofs.CompactPass Proofs.CompactExpiry.
+  Proofs.Coder Proofs.CompactSafe Proofs.CompactWf Proofs.CompactPass Proofs.CompactExpiry.
 Local Open Scope N_scope.
 
 (* what the code guarantees, for every store, mark queue, wall time, fault placement and interleaving:
@@ -92,6 +92,27 @@ Theorem C17_others_untouched : forall sup ttl now R lo hi q V os,
 Proof. exact scanner_others_untouched. Qed.
 Print Assumptions C17_others_untouched.
 
+(* the expired INDEX is removed by compare-and-delete with the value the scan saw, the versions by plain
+   delete. For any writers' commits just before the call: what the call takes away shares the target's slot
+   and the target itself was what the engine held (with one index per key: it IS the target) *)
+Theorem C17_index_removed_only_as_seen : forall R x d adds o rest y,
+  d_oc d = (adds, o) :: rest -> d_dead d = false -> skipped (d_lf d) (rkey x) = false ->
+  In y (apply_env adds (d_store d)) -> ~ In y (d_store (engine_delete R KDelCur x d)) ->
+  same_slot x y = true /\ In x (apply_env adds (d_store d)).
+Proof. exact delcur_only_seen. Qed.
+Print Assumptions C17_index_removed_only_as_seen.
+
+(* an Update of the Event that lands between the scan's snapshot and the removal of its index survives:
+   the compare fails, the fresh index and version stay (the old versions <= timeout revision go) *)
+Theorem C17_update_in_window_survives : forall R k r d n v d0 rest,
+  n <> r -> d_oc d0 = ([RIdx k n false; RVer k n v], OOk) :: rest ->
+  d_dead d0 = false -> skipped (d_lf d0) k = false ->
+  let d' := engine_delete R KDelCur (RIdx k r d) d0 in
+  In (RIdx k n false) (d_store d') /\ In (RVer k n v) (d_store d') /\
+  (exists sf, d_trace d' = mkStep KDelCur (RIdx k r d) OFailCond sf :: d_trace d0).
+Proof. exact expiry_respects_update. Qed.
+Print Assumptions C17_update_in_window_survives.
+
 (* engine-side TTL. Badger (as modelled: an overwrite replaces the entry's expiry): an entry that
    disappears had an expiry, and it has passed *)
 Theorem C17_badger_ttl_not_young : forall now s y,
@@ -108,6 +129,15 @@ Theorem C17_memkv_ttl_refuted :
 Proof. vm_compute. repeat split. Qed.
 Print Assumptions C17_memkv_ttl_refuted.
 
+(* the executable oracle accepts what the model produces for the TTL-choice cases, or names finding 1 exactly on
+   its signature (the scanner and engine-TTL cases of the oracle are not covered by a soundness lemma) *)
+Theorem C17_oracle_sound_ttl_choice_partial : forall prefix ettl k ttls,
+  c17_check (KTtlChoice prefix ettl k ttls) = true ->
+  c17_oracle (KTtlChoice prefix ettl k ttls) = None \/
+  (c17_oracle (KTtlChoice prefix ettl k ttls) = Some 1 /\ contains events_sub k = true /\ is_event_key prefix k = false).
+Proof. exact c17_oracle_sound_ttl_choice. Qed.
+Print Assumptions C17_oracle_sound_ttl_choice_partial.
+
 (* ---------- non-vacuity ---------- *)
 Example C17_ex_run :
   fst exRun = ([(9, 400)], 7) /\
@@ -123,6 +153,43 @@ Proof.
   split; [discriminate|]. split; [vm_compute; reflexivity|]. split; [vm_compute; reflexivity|].
   intros x Hx Hk. cbn in Hx. repeat (destruct Hx as [<-|Hx]; [cbn [rec_rev]; try lia; vm_compute in Hk; discriminate|]). destruct Hx.
 Qed.
+
+(* the update-in-window run end to end: e (rev 5) is expiring, the Update to rev 10 lands before the first
+   engine delete: the index compare fails, version 5 goes, index 10 and version 10 stay; the key reads the
+   new value, Update from 10 succeeds, Create is refused *)
+Definition exWin :=
+  scanner_compact false 300 400 9 (pfx ++ [47]) (pfx ++ [48]) [(7, 0)]
+    (init_d [RIdx k_event 5 false; RVer k_event 5 [1]] [([RIdx k_event 10 false; RVer k_event 10 [2]], OOk)]).
+Example C17_ex_window :
+  sort_by rec_ltb (d_store (snd exWin)) = [RIdx k_event 10 false; RVer k_event 10 [2]] /\
+  map (fun s => (ds_kind s, ds_target s, ds_out s)) (rev (d_trace (snd exWin)))
+  = [(KDelCur, RIdx k_event 5 false, OFailCond); (KDel, RVer k_event 5 [1], OOk)] /\
+  get_at (d_store (snd exWin)) max_rev k_event = Some (10, [2]) /\
+  snd (do_update (d_store (snd exWin)) k_event [3] 10 11) = WOk /\
+  snd (do_create (d_store (snd exWin)) k_event [3] 11) = WFalse.
+Proof. vm_compute. repeat split. Qed.
+
+(* the compare is load-bearing: an unconditional delete of the index there leaves "index gone, fresh version
+   left": the key still reads the new value, but Update from it is refused and Create succeeds *)
+Example C17_conditional_delete_needed :
+  let V1 := apply_env [RIdx k_event 10 false; RVer k_event 10 [2]] [RIdx k_event 5 false; RVer k_event 5 [1]] in
+  let bad := del_slot (RVer k_event 5 [1]) (del_slot (RIdx k_event 5 false) V1) in
+  get_at bad max_rev k_event = Some (10, [2]) /\
+  snd (do_update bad k_event [3] 10 11) = WFalse /\ snd (do_create bad k_event [3] 11) = WOk.
+Proof. vm_compute. repeat split. Qed.
+
+(* many marks inside one TTL window: each keeps its own time. 70 marks at t=0..69 (revision 5), an Event
+   created at revision 8, a mark (8, 350); at t=760 with ttl=600 the burst is popped (timeout revision 5: e
+   goes) but the mark of 350 is not (e8 stays); at t=1500 it is *)
+Definition burst : list mark := map (fun i => (5, N.of_nat i)) (seq 0 70).
+Definition k_event8 : bytes := pfx ++ events_sub ++ [110;47;102].
+Example C17_ex_burst :
+  let V := [RIdx k_event 5 false; RVer k_event 5 [1]; RIdx k_event8 8 false; RVer k_event8 8 [2]] in
+  let '(q1, tr1, d1) := scanner_compact false 600 760 9 (pfx ++ [47]) (pfx ++ [48]) (burst ++ [(8, 350)]) (init_d V []) in
+  let '(q2, tr2, d2) := scanner_compact false 600 1500 9 (pfx ++ [47]) (pfx ++ [48]) q1 (init_d (d_store d1) []) in
+  tr1 = 5 /\ q1 = [(8, 350); (9, 760)] /\ d_store d1 = [RIdx k_event8 8 false; RVer k_event8 8 [2]] /\
+  tr2 = 9 /\ d_store d2 = [].
+Proof. vm_compute. repeat split. Qed.
 
 (* a young Event (index above the timeout revision) and a mark younger than the TTL: nothing expires *)
 Example C17_ex_young :
